@@ -70,7 +70,7 @@ MUTANTS = [
     ("C13", "H1", "json.py", "        list_node = ListNode((c.copy() for c in node.children()))", "        list_node = ListNode(node.children())", "JSON fallback re-parents"),
     ("C13", "H1", "yaml.py", "        list_node = ListNode((c.copy() for c in node.children()))", "        list_node = ListNode(node.children())", "original defect"),
     ("C13", "H4", "yaml.py", "            self.parent.parent.print(printer, node.value)", "            self.parent.parent.parent.print(printer, node.value)", "parent chain too deep"),
-    ("C13", "H8", "yaml.py", "    def print(self, printer: Printer, *args, **kwargs):\n        # YAML only gets a two-space indent\n        printer.indent_str = '  '\n        super().print(printer, *args, **kwargs)", "    def print(self, printer: Printer, node_or_edit):\n        # YAML only gets a two-space indent\n        printer.indent_str = '  '\n        super().print(printer, node_or_edit)", "override drops with_edits"),
+    ("C13", "H8", "yaml.py", "    def print(self, printer: Printer, *args, **kwargs):\n        # YAML only gets a two-space indent\n", "    def print(self, printer: Printer, node_or_edit, *args):\n        kwargs = {}\n        # YAML only gets a two-space indent\n", "override drops with_edits"),
     ("C13", "E5c", "plist.py", "    print_MappingNode = print_MultiSetNode\n", "", "dispatch cycle for FixedKeyDictNode under plist"),
     # ---- C14
     ("C14", "R14a", "__main__.py", "    if args.to_mime is not None:\n        to_mime = args.to_mime", "    if args.from_mime is not None:\n        to_mime = args.from_mime", "original defect"),
@@ -102,7 +102,9 @@ MUTANTS = [
     # ---- C20
     ("C20", "R20a", "json.py", "{ve!s}", "{ve:!s}", "original defect"),
     ("C20", "R20b", "yaml.py", "        except YAMLError as ye:", "        except yaml_MarkedError as ye:", "SKIP"),
-    ("C20", "R20b", "plist.py", "        except (ExpatError, ValueError) as ee:", "        except ExpatError as ee:", "original defect"),
+    ("C20", "R20b", "plist.py", "        except (ExpatError, ValueError, IndexError, AttributeError) as ee:", "        except ExpatError as ee:", "original defect"),
+    ("C20", "R20b", "xml.py", "        except (LookupError, ValueError) as e:", "        except LookupError as e:", "multi-byte encoding ValueError escapes"),
+    ("C20", "R20b", "json.py", "        except (RecursionError, ValueError) as e:", "        except ValueError as e:", "RecursionError escapes"),
     ("C20", "R20c", "__main__.py", "                        if isinstance(to_tree, str):\n                            sys.stderr.write(to_tree)\n                            sys.stderr.write('\\n\\n')\n                            return 1", "                        if isinstance(to_tree, str):\n                            sys.stderr.write(to_tree)\n                            sys.stderr.write('\\n\\n')", "second error branch does not return"),
     # ---- added after the round-2 seeding wave
     ("C13", "H10", "printer.py", "        for mark in self.marks - self._state_before:\n", "        for mark in self.marks:\n", "context releases marks an enclosing context added"),
